@@ -620,6 +620,18 @@ class C07(Prop):
                     out.append(mk("q", k, "media_preset", hx(preset), hx(text), exp=expected_key_views(a), mseq=a["mseq"], overflow=False, nexplicit=nexplicit, model=False))
             if not overflow:
                 prev_text = text
+            if k % 5 == 0 and not overflow and (a["mseq"] or 0) == 0:
+                # the same history through the builder with every segment numbered explicitly (number = media sequence + position)
+                script = ["Tn 10000000000"] + (["M %d" % a["mseq"]] if a["mseq"] is not None else [])
+                hist = []
+                use_list = g.chance(0.5)
+                for idx, sg in enumerate(a["segs"]):
+                    hist = gen.keys_in_effect(hist + sg["keys_before"])
+                    script.append("seg %d" % idx)
+                    script += ["tag " + gen.key_line(kk) for kk in hist] + ["dur 9000000000", "uri s%d.ts" % idx, "end list" if use_list else "end push"]
+                script += (["segments"] if use_list else []) + ["build"]
+                exp_b = [[v[0], v[1], v[2], None] for v in expected_key_views(dict(a, segs=[dict(sg, map=None) for sg in a["segs"]]))]
+                out.append(mk("x", k, "bmedia", hx("\n".join(script)), exp=exp_b, mseq=a["mseq"] or 0, overflow=False, nexplicit=nexplicit, model=False))
         return out
 
     def judge(self, run, c, m, i):
@@ -765,6 +777,18 @@ class C08(Prop):
                 chain.append((uri, r))
                 prev = (uri, start + r[0]) if r is not None else None
             out.append(self._case("v", k, chain, None, maps))
+            if k % 3 == 0:
+                # the same chain through the builder, every segment numbered explicitly: same ranges as the text path
+                script = ["Tn 10000000000"]
+                use_list = g.chance(0.5)
+                for j, (uri, r) in enumerate(chain):
+                    script.append("seg %d" % j)
+                    if r is not None:
+                        script.append("tag #EXT-X-BYTERANGE:%d%s" % (r[0], "" if r[1] is None else "@%d" % r[1]))
+                    script += ["dur 5000000000", "uri " + uri, "end list" if use_list else "end push"]
+                script += (["segments"] if use_list else []) + ["build"]
+                exp = resolve_ranges(chain)
+                out.append(mk("b", k, "bmedia", hx("\n".join(script)), exp=exp, maps={}, nlen=len(chain), model=False))
         return out
 
     def judge(self, run, c, m, i):
@@ -833,6 +857,14 @@ class C09(Prop):
                         ns = x * 10 ** 9 + frac
                         out.append(self._case(n, t, al, [ns], g)); n += 1
                         out.append(self._bcase(n, t, al, [ns])); n += 1
+        # fractional target durations exist only through the builder: the bound is still target + allowance, and the value
+        # handed back carries the target it was given
+        for tn in (8600000000, 8750000000, 8000000001, 999999999, 8500000000):
+            for al in (None, 0, 500000000, 250000000, 400000000, 1):
+                for ns in (8 * 10 ** 9, 8499999999, 8500000000, 9 * 10 ** 9, 9499999999, 9500000000, 10 ** 9, 499999999):
+                    script = ["Tn %d" % tn] + (["X %d" % al] if al is not None else []) + ["seg -", "dur %d" % ns, "uri s.ts", "end push", "build"]
+                    ok_ = ((ns + 5 * 10 ** 8) // 10 ** 9) * 10 ** 9 <= tn + (al or 0)
+                    out.append(mk("b", n, "bmedia", hx("\n".join(script)), exp=ok_, exact=True, path="builder_fractional_target", model=False, target_ns=tn)); n += 1
         for k in range(count_tier(tier, 600, 20000)):
             t = g.pick(targets + [g.small(100)])
             al = g.pick(allow + [g.small(3 * 10 ** 9)])
@@ -907,7 +939,12 @@ class C09(Prop):
             return {"agree": agree, "ok": ok, "nontrivial": True, "detail": "" if ok else "accepted value holds a segment longer than the bound", "stats": {"inexact_text": 1}}
         want = "ok" if c["meta"]["exp"] else "err"
         ok = res_kind(i) == want
-        return {"agree": agree, "ok": ok, "nontrivial": True, "detail": "" if ok else "expected %s got %s" % (want, res_kind(i)), "stats": {c["meta"]["path"]: 1}}
+        detail = "" if ok else "expected %s got %s" % (want, res_kind(i))
+        if ok and want == "ok" and c["meta"].get("target_ns") is not None:
+            got_t = int(field(first_dump(mres(i)), "target")[1])
+            if got_t != c["meta"]["target_ns"]:
+                ok, detail = False, "the built value reports target duration %d ns, the builder was given %d ns" % (got_t, c["meta"]["target_ns"])
+        return {"agree": agree, "ok": ok, "nontrivial": True, "detail": detail, "stats": {c["meta"]["path"]: 1}}
 
 
 # ------------------------------------------------------------------ C10
@@ -952,6 +989,8 @@ class C10(Prop):
             gen.random_style(g)
             if n % 2:
                 a = gen.gen_media(g) if n % 4 != 3 else gen_key_history(g, length=g.r.randint(3, 12), with_maps=g.chance(0.3))
+                if g.chance(0.08):
+                    a["version_tag"] = g.pick([8, 9, 12, 0, 255, 18446744073709551615])
                 if n % 4 == 3 and g.chance(0.5):
                     for sg in a["segs"]:
                         for kk in sg["keys_before"]:
@@ -967,6 +1006,8 @@ class C10(Prop):
                     out.append(mk("r", n, "media_remove", hx(gen.render_media(a, None)), *idx, kind="media_removed", model=False))
             else:
                 a = gen.gen_master(g)
+                if g.chance(0.08):
+                    a["version_tag"] = g.pick([8, 9, 12, 0, 255])
                 out.append(mk("a", n, "master", hx(gen.render_master(a, g)), kind="master"))
         return out
 
@@ -1014,6 +1055,9 @@ class C11(Prop):
             else:
                 a = gen_key_history(g, length=g.r.randint(3, 25))
                 text = gen.render_media(a, None)
+                if n % 7 == 3:
+                    # over-long / repetitive KEYFORMATVERSIONS lists, mutated texts
+                    text = text.replace('URI="', 'KEYFORMATVERSIONS="%s",URI="' % "/".join(str(g.pick([1, 2, 3])) for _ in range(g.r.randint(9, 12))), 1) if g.chance(0.5) else gen.mutate(text, g)
                 out.append(mk("m", n, "repeat_media", hx(text), 8, base="media", model=False))
                 out.append(mk("M", n, "media", hx(text), base="media"))
         return out
@@ -1070,7 +1114,7 @@ def transform(text, g, kind):
         k = g.r.randrange(1, len(lines) + 1)
         while k < len(lines) and protected(k):
             k += 1
-        u = g.pick(["#EXT-X-NEW-TAG:1", "#EXT-FOO", "#EXT-X-CUE-OUT:30", "#EXT-X-ENDLISTS", "#EXT-X-DISCONTINUITY-X"])
+        u = g.pick(["#EXT-X-NEW-TAG:1", "#EXT-FOO", "#EXT-X-CUE-OUT:30", "#EXT-X-ENDLISTS", "#EXT-X-DISCONTINUITY-X"] + gen.NEAR_MISS_TAGS)
         lines.insert(k, u)
         return "\n".join(lines) + "\n", [(k, u)]
     if kind == "noeol":
@@ -1189,6 +1233,13 @@ REPR_LINES = [
     "#EXT-X-START:TIME-OFFSET=1", "#EXT-X-VERSION:3", "seg.ts", "# comment", "#EXT-X-UNKNOWN:1"]
 MEDIA_ONLY = set(range(0, 13))
 MASTER_ONLY = set(range(13, 18))
+# malformed lines of each kind (index = the kind's letter in REPR_LINES): a tag does not stop being that tag because its value is bad
+MALFORMED = {0: ["#EXTINF:abc,", "#EXTINF:"], 1: ["#EXT-X-BYTERANGE:x", "#EXT-X-BYTERANGE:"], 3: ["#EXT-X-KEY:METHOD=FOO", "#EXT-X-KEY:URI=\"k\""],
+             4: ["#EXT-X-MAP:BYTERANGE=\"1\"", "#EXT-X-MAP:"], 6: ['#EXT-X-DATERANGE:CLASS="c"', "#EXT-X-DATERANGE:ID=\"d\",PLANNED-DURATION=about-a-minute", "#EXT-X-DATERANGE:"],
+             7: ["#EXT-X-TARGETDURATION:x"], 8: ["#EXT-X-MEDIA-SEQUENCE:-1"], 9: ["#EXT-X-DISCONTINUITY-SEQUENCE:x"], 11: ["#EXT-X-PLAYLIST-TYPE:LIVE"],
+             13: ["#EXT-X-MEDIA:TYPE=AUDIO", "#EXT-X-MEDIA:"], 14: ["#EXT-X-STREAM-INF:BANDWIDTH=x", "#EXT-X-STREAM-INF:"], 15: ["#EXT-X-I-FRAME-STREAM-INF:BANDWIDTH=1"],
+             16: ['#EXT-X-SESSION-DATA:DATA-ID="i"', "#EXT-X-SESSION-DATA:"], 17: ["#EXT-X-SESSION-KEY:METHOD=NONE", "#EXT-X-SESSION-KEY:METHOD=FOO"], 19: ["#EXT-X-START:PRECISE=YES"],
+             20: ["#EXT-X-VERSION:x", "#EXT-X-VERSION:8"]}
 
 
 def tag_positions(idx_seq):
@@ -1239,6 +1290,16 @@ class C15(Prop):
                         out.append(mk("x", n, "media", hx(text), seq=seq, hdr=True, which="media"))
                         out.append(mk("y", n, "master", hx(text), seq=seq, hdr=True, which="master"))
                         n += 1
+        # a malformed line of a kind, alone or next to the lines that make a text acceptable at all: never accepted by the other parser
+        for x, bads in MALFORMED.items():
+            for bad in bads:
+                for pre, post in (((), ()), ((7,), ()), ((7,), (0, 21)), ((), (14, 21)), ((13,), ())):
+                    seq = tuple(pre) + (x,) + tuple(post)
+                    ls = [REPR_LINES[y] for y in pre] + [bad] + [REPR_LINES[y] for y in post]
+                    text = "#EXTM3U\n" + "".join(l + "\n" for l in ls)
+                    out.append(mk("x", n, "media", hx(text), seq=seq, hdr=True, which="media", malformed=True))
+                    out.append(mk("y", n, "master", hx(text), seq=seq, hdr=True, which="master", malformed=True))
+                    n += 1
         for k in range(count_tier(tier, 300, 3000)):
             gen.random_style(g)
             text = gen.render_media(gen.gen_media(g), g) if k % 2 else gen.render_master(gen.gen_master(g), g)
@@ -1296,15 +1357,28 @@ class C16(Prop):
                 text = gen.render_media(a, None)
                 op = "media"
             lines = text.split("\n")[:-1]
+            if op == "media" and g.chance(0.5):
+                # insert non-segment tags at random places, also between an item's tags and its URI
+                for _ in range(g.r.randint(1, 3)):
+                    lines.insert(g.r.randrange(1, len(lines) + 1), g.pick(["#EXT-X-CUE-OUT:DURATION=30", "#EXT-X-VERSION:3", "#EXT-X-INDEPENDENT-SEGMENTS",
+                                                                            "#EXT-X-START:TIME-OFFSET=1", "#EXT-UNKNOWN", "# comment"]))
+                text = "\n".join(lines) + "\n"
             out.append(mk("f", n, op, hx(text), role="full", group=k))
             full_id = "f%d" % n
             n += 1
             for cut in range(1, len(lines)):
                 pre = "\n".join(lines[:cut]) + "\n"
                 last = lines[cut - 1]
-                seg_tags = ("#EXTINF", "#EXT-X-BYTERANGE", "#EXT-X-DISCONTINUITY", "#EXT-X-KEY", "#EXT-X-MAP", "#EXT-X-PROGRAM-DATE-TIME", "#EXT-X-DATERANGE")
-                mid_item = (op == "media" and last.startswith(seg_tags) and not last.startswith("#EXT-X-DISCONTINUITY-SEQUENCE")) or \
-                           (op == "master" and last.startswith("#EXT-X-STREAM-INF:"))
+                seg_tags = ("#EXTINF:", "#EXT-X-BYTERANGE:", "#EXT-X-KEY:", "#EXT-X-MAP:", "#EXT-X-PROGRAM-DATE-TIME:", "#EXT-X-DATERANGE:")
+                def is_seg_tag(l):
+                    return l.startswith(seg_tags) or l == "#EXT-X-DISCONTINUITY"
+                pending = False          # a segment tag seen since the last URI line
+                for l in lines[:cut]:
+                    if is_seg_tag(l):
+                        pending = True
+                    elif not l.startswith("#"):
+                        pending = False
+                mid_item = (op == "media" and pending) or (op == "master" and last.startswith("#EXT-X-STREAM-INF:"))
                 out.append(mk("p", n, op, hx(pre), role="prefix", full=full_id, mid=mid_item, kind=op))
                 n += 1
             if op == "media" and len(a["segs"]) > 1:
@@ -1426,6 +1500,8 @@ def api_cases(g, strings, idp, n0, tier_count):
         add("kfv", hx("new:" + "/".join(str(g.pick([1, 2, 3, 255])) for _ in range(g.r.randint(2, 9))) + "~%d" % g.r.randint(1, 2)))
         add("kfv", hx("1/2/3/4~%d" % g.r.randint(1, 3)))
         add("iv_aes", g.iv().hex())
+        add("key_format_other", hx(g.pick(["identity", "com.apple.streamingkeydelivery", "com.microsoft.playready", "urn:uuid:edef8ba9-79d6-4ace-a3c8-27dcd51d21ed",
+                                            "x", "IDENTITY", ""])))
         add("iv_number", g.pick([0, 1, 2 ** 64, 2 ** 128 - 1]))
         add("key_iv_number", hx("AES-128"), hx("k"), g.pick([0, 7, 2 ** 64]))
     add("iv_missing")
@@ -1603,6 +1679,15 @@ class C05(Prop):
             else:
                 out.append(mk("c", n, "media", hx(text), stream="boundary"))
             n += 1
+        for pos in range(0, 34):
+            for ch in ("\u00e9", "\u20ac", "\U0001f600"):
+                w = len(ch.encode("utf-8"))
+                if pos + w > 34:
+                    continue
+                val = ("0x" + "0" * 32)[:pos] + ch + ("0x" + "0" * 32)[pos + w:]
+                out.append(mk("c", n, "tag", "InitializationVector", hx(val), stream="fixed-width", model=False)); n += 1
+                out.append(mk("c", n, "tag", "ExtXKey", hx('#EXT-X-KEY:METHOD=AES-128,URI="k",IV=' + val), stream="fixed-width", model=False)); n += 1
+                out.append(mk("c", n, "master", hx('#EXTM3U\n#EXT-X-SESSION-KEY:METHOD=AES-128,URI="k",IV=' + val + "\n"), stream="fixed-width")); n += 1
         # stress stream: large inputs of simple shape, each in its own process of the UNOPTIMISED harness build (recursion is not
         # turned into a loop there): the entry point has to return -- an abort (stack overflow) or a hang is a violation
         N = count_tier(tier, 300000, 1500000)
@@ -1743,7 +1828,7 @@ def master_text(media, variants, sdata, g=None):
             if v["cc"] == "NONE":
                 a += ",CLOSED-CAPTIONS=NONE"
             elif v["cc"]:
-                a += ',CLOSED-CAPTIONS="%s"' % v["cc"]
+                a += ',CLOSED-CAPTIONS="%s"' % (v["cc"][2:] if v["cc"].startswith("q:") else v["cc"])
             blocks.append(["#EXT-X-STREAM-INF:" + a, "v.m3u8"])
     for did, lang in sdata:
         blocks.append(['#EXT-X-SESSION-DATA:DATA-ID="%s",VALUE="x"%s' % (did, ',LANGUAGE="%s"' % lang if lang else "")])
@@ -1766,7 +1851,8 @@ def master_consistent(media, variants, sdata):
                 return False
             if v["subs"] and ("SUBTITLES", v["subs"]) not in have:
                 return False
-            if v["cc"] not in (None, "NONE") and ("CLOSED-CAPTIONS", v["cc"]) not in have:
+            ccg = v["cc"][2:] if (v["cc"] or "").startswith("q:") else v["cc"]      # "q:NONE" = the GROUP named NONE, written with quotes
+            if v["cc"] not in (None, "NONE") and ("CLOSED-CAPTIONS", ccg) not in have:
                 return False
     if none and grp:
         return False
@@ -1794,7 +1880,7 @@ class C13(Prop):
             variants = []
             for _ in range(g.pick([0, 1, 1, 2, 2, 3, 4])):
                 variants.append({"kind": "s", "audio": g.pick([None, "g1", "g2"]), "video": g.pick([None, None, "g1", "g2"]),
-                                 "subs": g.pick([None, "g1", "g2"]), "cc": g.pick([None, "g1", "g2", "NONE"])})
+                                 "subs": g.pick([None, "g1", "g2"]), "cc": g.pick([None, "g1", "g2", "NONE", "q:NONE"])})
             if g.chance(0.4):
                 variants.append({"kind": "iframe", "video": g.pick([None, "g1", "g2"])})
             sdata = [(g.pick(["a", "b"]), g.pick([None, "en", "de"])) for _ in range(g.pick([0, 1, 2, 2, 3, 4, 5]))]
@@ -1951,6 +2037,10 @@ class C14(Prop):
                 vals[nm] = '"v"'
         attrs = [(nm, vals[nm]) for nm in present]
         g.r.shuffle(attrs)
+        for j, (nm, v) in enumerate(list(attrs)):
+            if nm in ("TYPE", "DEFAULT", "AUTOSELECT", "FORCED") and g.chance(0.08):
+                attrs[j] = (nm, g.pick(['"%s"' % v, v + '"', '"' + v]))
+                vals[nm] = "BOGUS" if nm == "TYPE" else "MAYBE"
         line = attr_line("#EXT-X-MEDIA:", attrs)
         valid_vals = vals.get("TYPE", "AUDIO") != "BOGUS" and all(vals.get(k, "YES") in ("YES", "NO") for k in ("DEFAULT", "AUTOSELECT", "FORCED")) \
             and vals.get("INSTREAM-ID", '"CC1"') != '"SERVICE64"' and vals.get("CHANNELS", '"2"') != '"x"'
@@ -2253,7 +2343,7 @@ class C18(Prop):
         clean = [w for w in gen.WORDS if "," not in w] + [g.qstring().replace(",", ";") for _ in range(count_tier(tier, 10, 100))]
         clean = [w.strip() or "w" for w in clean]
         for c in api_cases(g, clean, "a", 0, count_tier(tier, 30, 500)):
-            if c["meta"]["kind"] in ("iv_number", "iv_missing", "key_iv_number", "value_from_string"):
+            if c["meta"]["kind"] in ("iv_number", "iv_missing", "key_iv_number", "value_from_string", "key_format_other"):
                 continue          # not text forms of their own: a derived / missing IV is never written (C07)
             if c["meta"]["kind"] == "daterange" and unhex(c["args"][1]) != "id":
                 continue
@@ -2270,6 +2360,11 @@ class C18(Prop):
         for t in specials:
             add("Float", t, accept=finite(t))
             add("UFloat", t, accept=finite(t) and not t.startswith("-"))
+        for k in range(count_tier(tier, 300, 6000)):
+            t = g.f32_midpoint_text(signed=False)
+            bits = gen.f32_bits(t)
+            add("UFloat", t, accept=True, exp="(uf %d)" % bits)
+            add("Float", "-" + t, accept=True, exp="(f %d)" % (bits + 0x80000000))
         for k in range(count_tier(tier, 400, 20000)):
             bits = g.r.randrange(0, 0x7F800000)
             import struct
@@ -2344,22 +2439,22 @@ LAW_POOLS = {
     "ByteRange": ["1", "1@0", "1@5", "6@0", "0", "0@0", "5@1"],
     "Channels": ["1", "2", "2/JOC", "1/JOC"],
     "Resolution": ["1x2", "2x1", "1x1", "10x9"],
-    "Codecs": ["a", "a,b", "b,a", "a,b,c", ""],
-    "ClosedCaptions": ["NONE", '"NONE"', '"a"', '"b"'],
+    "Codecs": ["a", "a,b", "b,a", "a,b,c", "", "A", "A,b", "a,B", "avc1.4d401e", "avc1.4D401E"],
+    "ClosedCaptions": ["NONE", '"NONE"', '"a"', '"b"', '"A"', '"none"'],
     "KeyFormat": ['"identity"', "identity", '"com.apple.streamingkeydelivery"', '"x"', '"y"', "other:identity", "other:com.apple.streamingkeydelivery",
                   "other:x", "other:urn:uuid:edef8ba9-79d6-4ace-a3c8-27dcd51d21ed", "other:com.microsoft.playready", '"com.microsoft.playready"'],
     "InitializationVector": ["0x" + "00" * 16, "0x" + "00" * 15 + "01", "0X" + "FF" * 16, "0x" + "ff" * 16, "num:0", "num:1", "num:255", "missing",
                              "0x" + "00" * 15 + "ff", "num:340282366920938463463374607431768211455"],
-    "Value": ['"a"', '"b"', "0x00", "0x0000", "1.5", "0", "-0", '"1.5"'],
+    "Value": ['"a"', '"b"', "0x00", "0x0000", "1.5", "0", "-0", '"1.5"', '"A"', "0x0A", "0x0a"],
     "DecryptionKey": ['METHOD=AES-128,URI="k"', 'METHOD=AES-128,URI="k",KEYFORMATVERSIONS="1/2"', 'METHOD=AES-128,URI="k",KEYFORMATVERSIONS="3/4"',
                       'METHOD=AES-128,URI="k",KEYFORMAT="identity"', 'METHOD=SAMPLE-AES,URI="k"', 'METHOD=AES-128,URI="k2"',
                       'METHOD=AES-128,URI="k",IV=0x' + "00" * 16, 'METHOD=AES-128,URI="k",KEYFORMATVERSIONS="1/2/3"',
                       'METHOD=AES-128,URI="k"#ivnum=0', 'METHOD=AES-128,URI="k"#ivnum=7', 'METHOD=AES-128,URI="k",IV=0x' + "00" * 15 + "07"],
     "ExtXKey": ["#EXT-X-KEY:METHOD=NONE", '#EXT-X-KEY:METHOD=AES-128,URI="k"', '#EXT-X-KEY:METHOD=AES-128,URI="k",KEYFORMATVERSIONS="1/2"',
                 '#EXT-X-KEY:METHOD=AES-128,URI="k",KEYFORMATVERSIONS="2/1"'],
-    "ExtInf": ["#EXTINF:1,", "#EXTINF:1,t", "#EXTINF:2,", "#EXTINF:1.000000001,"],
+    "ExtInf": ["#EXTINF:1,", "#EXTINF:1,t", "#EXTINF:2,", "#EXTINF:1.000000001,", "#EXTINF:1,T"],
     "ExtXStart": ["#EXT-X-START:TIME-OFFSET=0", "#EXT-X-START:TIME-OFFSET=-0", "#EXT-X-START:TIME-OFFSET=1,PRECISE=YES", "#EXT-X-START:TIME-OFFSET=1"],
-    "ExtXMap": ['#EXT-X-MAP:URI="a"', '#EXT-X-MAP:URI="a",BYTERANGE="1@2"', '#EXT-X-MAP:URI="b"'],
+    "ExtXMap": ['#EXT-X-MAP:URI="a"', '#EXT-X-MAP:URI="a",BYTERANGE="1@2"', '#EXT-X-MAP:URI="b"', '#EXT-X-MAP:URI="A"'],
     "ExtXSessionData": ['#EXT-X-SESSION-DATA:DATA-ID="a",VALUE="v"', '#EXT-X-SESSION-DATA:DATA-ID="a",URI="v"', '#EXT-X-SESSION-DATA:DATA-ID="a",VALUE="v",LANGUAGE="en"'],
     "StreamData": ["BANDWIDTH=1", "BANDWIDTH=2", 'BANDWIDTH=1,CODECS="a"', "BANDWIDTH=1,RESOLUTION=1x1"],
     "ProtocolVersion": ["1", "2", "7"],
@@ -2565,6 +2660,16 @@ class C20(Prop):
             out.append(mk("t", n, "master", hx(gen.render_master(a, None)), role="text"))
             out.append(mk("b", n, "bmaster", hx(master_builder_script(a, g, skip, g.chance(0.7))), role="mbuilder", partner="t%d" % n, ntags=len(a["media"]) + len(a["variants"]), model=False))
             n += 1
+        for k in range(count_tier(tier, 60, 600)):
+            name = g.pick(["X-A", "X-COM-EXAMPLE-AD", "X-Z9"])
+            vals_ = [g.pick(["one", "two", "three", "a,b"]) for _ in range(g.r.randint(2, 3))]
+            script = ["id d"] + ["client %s s %s" % (name, v_) for v_ in vals_]
+            if g.chance(0.5):
+                script.insert(1, "client X-OTHER s keep")
+            text = '#EXT-X-DATERANGE:ID="d"' + "".join(',%s="%s"' % (name, v_) for v_ in vals_) + (',X-OTHER="keep"' if "client X-OTHER s keep" in script else "")
+            out.append(mk("t", n, "tag", "ExtXDateRange", hx(text), role="text"))
+            out.append(mk("b", n, "btag", "ExtXDateRange", hx("\n".join(script)), role="tagbuilder", partner="t%d" % n, model=False))
+            n += 1
         for k in range(count_tier(tier, 500, 10000)):
             cnt = g.r.randint(1, 6)
             nums = list(range(cnt))
@@ -2610,6 +2715,13 @@ class C20(Prop):
         if res_kind(i) not in ("ok", "err"):
             return {"agree": agree, "ok": False, "nontrivial": True, "detail": "builder call sequence did not return normally: " + res_kind(i)}
         node = mres(i)
+        if role == "tagbuilder":
+            t = run.impl.get(c["meta"]["partner"]) or ""
+            mt = re.search(r"\(dr .*?\)\)\)", t)          # the (dr …(client …)) dump inside the tag op's result
+            mb = re.search(r"\(dr .*?\)\)\)", i or "")
+            ok = mt is not None and mb is not None and mt.group(0) == mb.group(0)
+            return {"agree": None, "ok": ok, "nontrivial": True, "stats": {"tag_builder": 1},
+                    "detail": "" if ok else "date range built with repeated setter calls differs from the parse of the same attributes: %s vs %s" % ((i or "")[:200], t[:200])}
         if role == "mbuilder":
             t = run.impl.get(c["meta"]["partner"])
             tn = mres(t)
